@@ -13,7 +13,7 @@ func init() {
 	register(&PropertyDef{
 		ID: "C12",
 		Explanation: "The structural clauses of schedule independence and streaming: (R12.1) every successful return of stream.Writer.Write reports len(p) of the parameter (or 0 for an empty p), and the armor writer returns its encoder's count for the same p; (R12.2) stream.Writer, stream.Reader and the armor reader hold data only in fixed-size arrays: every store to their slice fields is a reslice of that array or of the field itself, never an append; " +
-			"(R12.3) in the library a source is read only through io.ReadFull / bufio.Reader / io.ReadAll; the single direct Read on an io.Reader is the 1-byte EOF probe, and the chunk read fills exactly r.buf (one chunk); (R12.4) a full buffer is flushed only when more input is pending: flushChunk(false) is guarded by len(unwritten) == ChunkSize and len(remaining p) > 0; (R07.3) the bufio over-read is handed back.",
+			"(R12.3) in the library a source is read only through io.ReadFull / bufio.Reader / io.ReadAll; the single direct Read on an io.Reader is the 1-byte EOF probe, and the chunk read fills exactly r.buf (one chunk); (R12.4) a full buffer is flushed only when more input is pending: flushChunk(false) is guarded by len(unwritten) == ChunkSize and len(remaining p) > 0; (R07.3) the bufio over-read is handed back. (R12.7) neither reader returns (0, nil) for a non-empty buffer.",
 		NotDecided:  "that produced bytes and released plaintext are identical under every segmentation (value property over buffer arithmetic).",
 		Assumptions: []string{"io.ReadFull loops over short reads; bufio.Reader tolerates arbitrary delivery"},
 		Technique:   "static analysis: return-value terms, type-level buffer shape plus store provenance, who-may-call on io.Reader.Read, dominance guards",
